@@ -188,6 +188,10 @@ impl Store {
     pub fn is_empty(&self) -> bool {
         self.map.borrow().is_empty()
     }
+    /// mark the content as changed (dump memoisation keys on the version)
+    pub fn touch(&self) {
+        self.version.set(fresh_version());
+    }
     pub fn len(&self) -> usize {
         self.map.borrow().len()
     }
@@ -1395,6 +1399,47 @@ pub fn run_tx(
             Err((e, partial))
         }
     }
+}
+
+/// `migrate C`: call the real `migrate` entry point of an instantiated contract on its current storage.
+/// The result is `ok` only if it returns `Ok` with no messages; on `Err`, panic or emitted messages
+/// the storage is restored (a migration that wants to send messages is outside the protocol).
+pub fn run_migrate<F>(world: &mut World, idx: usize, f: F) -> Result<(), String>
+where
+    F: FnOnce(DepsMut, Env) -> Result<Response<Empty>, String>,
+{
+    if !world.inst[idx] {
+        return Err("contract not instantiated".to_string());
+    }
+    let backup = world.stores[idx].clone();
+    let r = {
+        let w: &World = &*world;
+        let api = api();
+        let querier = WorldQuerier { w };
+        let mut storage = StoreRef::new(w, idx);
+        let env = w.env(ADDRS[idx]);
+        guarded(|| {
+            let deps =
+                DepsMut { storage: &mut storage, api: &api, querier: QuerierWrapper::new(&querier) };
+            f(deps, env)
+        })
+    };
+    let res = match r {
+        Ok(Ok(resp)) => {
+            if resp.messages.is_empty() {
+                Ok(())
+            } else {
+                Err("migrate emitted messages".to_string())
+            }
+        }
+        Ok(Err(e)) => Err(e),
+        Err(()) => Err("panic".to_string()),
+    };
+    if res.is_err() {
+        world.stores[idx] = backup;
+        world.stores[idx].touch();
+    }
+    res
 }
 
 /// `inst_*`: clear the storage, call the real `instantiate`; on failure the storage stays empty.
